@@ -35,7 +35,9 @@ def run_sim_job(job, prop, case=None):
     plan = campaign.SIM_PLANS.get(prop, {})
     full = plan.get('full_bound') and not case.get('adversary') and not case.get('permute')
     bound = B if full else min(B, CAP_BOUND)
-    res, tr = sim.run_case(case, bound=bound)
+    res, tr = sim.run_case(case, bound=bound, schedule=case.get('pause'))
+    if case.get('pause'):
+        tr.cnt['paused_simulation_cases'] += 1
     oracles.evaluate(case, tr, res, bound=(B if full else None))
     out = {
         'hash': case_hash(case), 'case': case, 'outcome': res['outcome'],
